@@ -32,6 +32,8 @@ def catalogue(quick=True):
         out.append(('dwt1d-inv-none', dict(mode=mode, L=4, N=11, J=2)))
         for fn in ('afb2d', 'sfb2d'):
             out.append(('functional', dict(fn=fn, mode=mode, L=4, H=8, W=10, nf=4)))
+        out.append(('functional-prepared', dict(fn='afb2d', mode=mode, L=4, H=8, W=10, nf=2)))
+        out.append(('functional-prepared', dict(fn='sfb2d', mode=mode, L=4, H=8, W=10, nf=4)))
         for dim in (2, 3, -1, -2):
             out.append(('functional1d', dict(fn='afb1d', mode=mode, L=4, H=8, W=10, dim=dim)))
             out.append(('functional1d', dict(fn='sfb1d', mode=mode, L=4, H=8, W=10, dim=dim)))
@@ -133,6 +135,19 @@ def build(S, kind, p, nb=2, c=3, requires_grad=False, contig=True):
             return fn, (co[:, :, 0], co[:, :, 1], co[:, :, 2], co[:, :, 3], filts, p['mode']), [(b, co)], p['fn']
         b, co = mk('coeffs', [p['H'], p['W']], extra=(4,))
         return fn, (co, filts, p['mode']), [(b, co)], p['fn']
+    if kind == 'functional-prepared':
+        # filters handed over as prepared tensors (the form prep_filt_* returns): the 2-filter form transposes them
+        fn = S.get(LL, p['fn'])
+        L = p['L']
+        prep = S.get(LL, 'prep_filt_afb2d' if p['fn'] == 'afb2d' else 'prep_filt_sfb2d')
+        arrs = [user_filter(str(i), L + (2 if i >= 2 else 0)) for i in range(4)]
+        pf = S.interp.call(prep, arrs if p['nf'] == 4 else arrs[:2], {})
+        filts = list(pf) if p['nf'] == 4 else [pf[0], pf[1]]
+        if p['fn'] == 'afb2d':
+            b, x = mk('x', [p['H'], p['W']])
+            return fn, (x, filts, p['mode']), [(b, x)], 'afb2d[prepared]'
+        b, co = mk('coeffs', [p['H'], p['W']], extra=(4,))
+        return fn, (co[:, :, 0], co[:, :, 1], co[:, :, 2], co[:, :, 3], filts, p['mode']), [(b, co)], 'sfb2d[prepared]'
     if kind == 'functional1d':
         fn = S.get(LL, p['fn'])
         L = p['L']
